@@ -337,7 +337,7 @@ async def _kill_client(svc):
         pass
 
 
-_mode = {"abrupt": False, "after_ack": None}
+_mode = {"abrupt": False, "after_ack": None, "gap": 0.05}
 
 
 async def client_op(sid, op, fx, arg=None):
@@ -348,6 +348,11 @@ async def client_op(sid, op, fx, arg=None):
     try:
         if op == "create_again":
             svc.handle_create_config(dict(fx["cfg"]))
+            return True, None
+        if op == "create_same":
+            # a brand-new client object asked to create the service whose (already salted) configuration it is given:
+            # the same service id comes out, so this would redo the completed first step
+            cs.Service().handle_create_config(dict(fx["cfg_salted"]))
             return True, None
         if op == "genkey":
             svc.handle_create_key()
@@ -388,8 +393,8 @@ async def client_op(sid, op, fx, arg=None):
                     raise
                 except Exception:
                     pass
-            await asyncio.sleep(0.05)
-    except (ValueError, FileNotFoundError, AttributeError, KeyError, asyncio.TimeoutError, EOFError, pickle.UnpicklingError) as ex:
+            await asyncio.sleep(_mode["gap"])
+    except (ValueError, FileNotFoundError, FileExistsError, AttributeError, KeyError, asyncio.TimeoutError, EOFError, pickle.UnpicklingError) as ex:
         return False, "%s: %s" % (type(ex).__name__, str(ex)[:90])
     raise AssertionError("unknown op " + op)
 
@@ -397,7 +402,7 @@ async def client_op(sid, op, fx, arg=None):
 def model_step(f, op):
     """5-flag reference model with the documented prerequisite relation. returns (accepted, new flags)"""
     cc, cu, kc, de, du = f
-    if op == "create_again":
+    if op in ("create_again", "create_same"):
         return (not cc), f
     if op == "genkey":
         ok = cc and not kc
@@ -419,7 +424,9 @@ def model_step(f, op):
 async def _c11_history(loop_, fx, ops, rnd, viol):
     m = modules()
     svc = m["cs"].Service()
-    sid = svc.handle_create_config(dict(fx["cfg"]))
+    cfg0 = dict(fx["cfg"])
+    sid = svc.handle_create_config(cfg0)        # adds the salt to cfg0 in place
+    fx = dict(fx, cfg_salted=dict(cfg0))
     f = (True, False, False, False, False)
     keyb = None
     keypath = m["cfm"]._PROGRAM_PATH.joinpath(sid).joinpath("key")
@@ -463,9 +470,10 @@ def rt_c11(rnd, tier):
     viol, cases = [], 0
     fx = scheme_fixture(rnd)
     root = tempfile.mkdtemp(prefix="c11-")
-    ops_all = ["genkey", "encrypt", "upload_config", "upload_db", "search", "create_again"]
+    ops_all = ["genkey", "encrypt", "upload_config", "upload_db", "search", "create_again", "create_same"]
     full = ["genkey", "encrypt", "upload_config", "upload_db", "search"]
     fixed = [full + ["genkey", "search", "encrypt", "upload_db", "upload_config", "search"],
+             full + ["create_same", "genkey", "search"], ["genkey", "create_same", "genkey", "encrypt", "create_again", "encrypt"],
              ["upload_config", "genkey", "upload_db", "encrypt", "upload_db", "search", "search", "genkey", "search"],
              ["search", "upload_db", "encrypt", "genkey", "genkey", "encrypt", "encrypt", "upload_config", "upload_config", "upload_db", "search"]]
     nrand = 6 if tier == "quick" else 80
@@ -738,12 +746,24 @@ def e2e_fixture(rnd, name):
     return dict(mod=mod, cfg=cfg, db1=db)
 
 
-async def _c09_run(root, fx, restart_at, name, abrupt=False):
+async def _c09_run(root, fx, restart_at, name, abrupt=False, back_to_back=False):
     m = modules()
     lp = Loop(root)
     await lp.start()
     _mode["abrupt"] = abrupt
     _mode["after_ack"] = lp.restart_server if restart_at == "ack" else None
+    if back_to_back:
+        # every step reconnects while the server's end-of-connection clean-up of the previous step is still pending
+        # (grace period stretched to 0.3 s, no pause between the steps); the searches start after all clean-ups have run.
+        # With restart "ack": the uploading connection stays open until the clean-up of the PREVIOUS connection has run,
+        # then the server process dies -- what is on disk at that moment is all the restarted server knows
+        _mode["gap"] = 0
+        m["sm"].asyncio._scale = 0.3
+        if restart_at == "ack":
+            async def late_kill():
+                await asyncio.sleep(0.45)
+                await lp.restart_server()
+            _mode["after_ack"] = late_kill
     try:
         svc = m["cs"].Service()
         sid = svc.handle_create_config(dict(fx["cfg"]))
@@ -756,6 +776,9 @@ async def _c09_run(root, fx, restart_at, name, abrupt=False):
                 return "workflow step %s failed: %s" % (op, val)
         if restart_at == len(steps):
             await lp.restart_server()
+        if back_to_back:
+            await asyncio.sleep(0.6)
+            _mode["gap"] = 0.05
         for w in list(fx["db1"]) + [b"absent", b"alpha"]:
             acc, val = await client_op(sid, "search", fx, w)
             if not acc:
@@ -767,6 +790,8 @@ async def _c09_run(root, fx, restart_at, name, abrupt=False):
     finally:
         _mode["abrupt"] = False
         _mode["after_ack"] = None
+        _mode["gap"] = 0.05
+        m["sm"].asyncio._scale = 0.02
         await lp.stop()
 
 
@@ -780,16 +805,23 @@ def rt_c09(rnd, tier):
             fx = e2e_fixture(rnd, name)
             places = [(None, False), (4, False), ("ack", True)] if tier == "quick" and name != "CJJ14.PiBas" else \
                 [(p, a) for p in (None, 0, 1, 2, 3, 4, "ack") for a in (False, True)]
+            if tier != "quick" or name in ("CJJ14.PiBas", "CT14.Pi", "CGKO06.SSE2"):
+                places = places + [("b2b", False), ("b2b", True), ("b2b-ack", True)]
             for restart_at, abrupt in places:
                 i += 1
                 cases += 1
+                b2b = restart_at in ("b2b", "b2b-ack")
+                if b2b:
+                    restart_at = "ack" if restart_at == "b2b-ack" else None
                 try:
-                    problem = asyncio.run(_c09_run(os.path.join(root, "e%d" % i), fx, restart_at, name, abrupt))
+                    problem = asyncio.run(_c09_run(os.path.join(root, "e%d" % i), fx, restart_at, name, abrupt, back_to_back=b2b))
                 except Exception as ex:
                     problem = "scenario raised %s: %s" % (type(ex).__name__, str(ex)[:80])
                 if problem:
                     _viol(viol, "%s, server restart %s, client %s: %s" % (
-                        name, "never" if restart_at is None else ("right after the index acknowledgement, connection still open"
+                        name, ("never, steps back to back (reconnect while the previous connection's clean-up is pending)" if b2b else "never")
+                        if restart_at is None else ("after the previous connection's clean-up has run, uploading connection still open, steps back to back"
+                                                    if b2b else "right after the index acknowledgement, connection still open"
                                                                   if restart_at == "ack" else "before step %d" % restart_at),
                         "discarded without close between steps" if abrupt else "closed between steps", problem),
                           scheme=name, restart_at=restart_at, abrupt=abrupt)
